@@ -157,3 +157,19 @@ Proof.
     apply in_split in Hz. destruct Hz as (b & c & ->). now exists [], b, c.
   - destruct (IH H) as (a & b & c & ->). now exists (k :: a), b, c.
 Qed.
+
+(* pairs is complete: every two keys at distinct positions form a listed pair (the converse of
+   pairs_are_ordered_pairs), so the listed pairs are EXACTLY the unordered pairs of positions *)
+Theorem pairs_complete a x b y c : In (x, y) (pairs (a ++ x :: b ++ y :: c)).
+Proof.
+  induction a as [|k a IH]; cbn.
+  - apply in_or_app; left; apply in_map; apply in_or_app; right; left; reflexivity.
+  - apply in_or_app; right; exact IH.
+Qed.
+
+Theorem pairs_exactly keys x y :
+  In (x, y) (pairs keys) <-> exists a b c, keys = a ++ x :: b ++ y :: c.
+Proof.
+  split; [apply pairs_are_ordered_pairs|].
+  intros (a & b & c & ->); apply pairs_complete.
+Qed.
